@@ -41,7 +41,7 @@ def grid(tier, rng):
         ['mkdir_p ' + hx('/a/b'), 'write_all ' + hx('/a/f') + ' ' + hx('hi\n'), 'write_all ' + hx('/g') + ' ' + hx('x')],
         ['mkdir_p ' + hx('/a/b'), 'write_all ' + hx('/a/f') + ' ' + hx('hi'), 'symlink ' + hx('/l') + ' ' + hx('/a'), 'symlink ' + hx('/lf') + ' ' + hx('/a/f')],
         ['mkdir_p ' + hx('/a/b'), 'write_all ' + hx('/a/b/f') + ' ' + hx('1\n2\n'), 'symlink ' + hx('/a/l') + ' ' + hx('b'), 'symlink ' + hx('/a/b/up') + ' ' + hx('../..'), 'set_cwd ' + hx('/a')],
-        ['mkdir_m ' + hx('/a') + ' 700', 'mkfile_m ' + hx('/a/f') + ' 600', 'mkfile_m ' + hx('/x') + ' 755', 'mkdir_p ' + hx('/b'), 'symlink ' + hx('/b/l') + ' ' + hx('/x')],
+        ['mkdir_m ' + hx('/a') + ' 700', 'mkdir_m ' + hx('/a/s') + ' 711', 'mkfile_m ' + hx('/a/s/g') + ' 640', 'mkfile_m ' + hx('/a/f') + ' 600', 'mkfile_m ' + hx('/x') + ' 755', 'mkdir_p ' + hx('/b'), 'symlink ' + hx('/b/l') + ' ' + hx('/x')],
         ['mkdir_p ' + hx('/a/a/a'), 'write_all ' + hx('/a/a/a/f') + ' ' + hx('deep'), 'set_cwd ' + hx('/a/a')],
         ['write_all ' + hx('/f') + ' xfffe', 'mkdir_p ' + hx('/b'), 'symlink ' + hx('/b/lf') + ' ' + hx('/f'), 'symlink ' + hx('/ld') + ' ' + hx('/b')],
     ]
@@ -57,7 +57,9 @@ def grid(tier, rng):
             for q in ['/a', '/zz', '/a/b', '/b/n', 'n', '/l', '/g']:
                 calls += [f'copy {hx(p)} {hx(q)}', f'move_p {hx(p)} {hx(q)}', f'symlink {hx(p)} {hx(q)}']
         if tier == 'quick':
-            calls = rng.sample(calls, 260)
+            # a random sample plus every copy / move of the main directory of the tree
+            keep = [c for c in calls if c.split(' ')[0] in ('copy', 'move_p') and c.split(' ')[1] == hx('/a')]
+            calls = rng.sample(calls, 240) + keep
         for c in calls:
             H.append([N] + tr + [c, 'all_paths ' + hx('/')])
     return H
@@ -170,7 +172,7 @@ def stale_link_kinds(mem_abs):
     return out
 
 
-def classify(req, so, mo, pre, mem_pre=None):
+def classify(req, so, mo, pre, mem_pre=None, sd=None, md=None):
     """known divergence classes (findings), by (pre-state, call)"""
     t = req.split(' ')
     op = t[0]
@@ -236,8 +238,13 @@ def classify(req, so, mo, pre, mem_pre=None):
             k2 = None
         if op == 'copy' and k2 and any(f[1] == 'l' and (f[0] == k2 or f[0].startswith(k2 if k2 == '2f' else k2 + '2f')) for f in nodes.values()):
             return 'copy_dst_link'
-        if op == 'copy' and so.startswith('ok') and mo.startswith('ok'):
-            return 'copy_keeps_dst_mode'
+        if op == 'copy' and so.startswith('ok') and mo.startswith('ok') and sd and md:
+            # only the permission bits of regular files that existed before the copy differ
+            _, ns = parse(sd)
+            _, nm = parse(md)
+            diff = [k_ for k_ in set(ns) | set(nm) if ns.get(k_) != nm.get(k_)]
+            if diff and all(k_ in ns and k_ in nm and k_ in nodes and nodes[k_][1] == 'f' and ns[k_][:2] + ns[k_][3:] == nm[k_][:2] + nm[k_][3:] for k_ in diff):
+                return 'copy_keeps_dst_mode'
         if op == 'move_p' and (kind == 'l' or any(f[1] == 'l' and k and f[0].startswith(k + '2f') for f in nodes.values())):
             return 'S8_move_links'
         if op == 'move_p' and so.startswith('ok') and mo == 'err ExistsAlready':
@@ -380,7 +387,7 @@ def run(tier, seed, replay):
             same_out = same_result(so, mo)
             same_tree = sd == md
             if not (same_out and same_tree):
-                cls = lean_cls if lean_cls in LEAN_CLASSES else classify(req, so, mo, pre, mem_pre)
+                cls = lean_cls if lean_cls in LEAN_CLASSES else classify(req, so, mo, pre, mem_pre, sd, md)
                 cls = {'S10_cwd_removed': 'cwd_removed'}.get(cls, cls)
                 cls_hist[cls or 'unclassified'] = cls_hist.get(cls or 'unclassified', 0) + 1
                 if cls and cls in known:
